@@ -292,6 +292,35 @@ def check (c):
         want_cmds = ['C'] + (['P'] if 'zen' in v else []) + (['N', 'N'] if 'near' in v else [])
         if r2 ['commands'] != want_cmds:
             bad ('prompts.api', 'commands', 'commands %s written for requests %s' % (r2 ['commands'], want_cmds))
+    # ---- the file written in a run that sweeps the frequency is the file of the run at the start frequency alone
+    if c.get ('i', 0) % 4 == 1 and 'edge' not in c:
+        mon ['sweep-file'] = 1
+        try:
+            ts = basic_text (argv + ['--frequency-steps', '3', '--frequency-increment=%r' % (0.031 * m.f)], spec ['version'], spec ['fields'], lam)
+            if ts != text:
+                ls, lt = ts.split ('\n'), text.split ('\n')
+                bad ('sweep-file', 'basic-input-of-a-sweep', 'the file written by a run of three frequency steps differs from the file of the single run: %r (%d / %d lines)' % ([(x, y) for x, y in zip (ls, lt) if x != y] [:2], len (ls), len (lt)))
+        except common.Rejected:
+            pass
+    # ---- sources handed to the classes as magnitude and phase, the magnitude negative: the answers give the voltage
+    m9 = common.build_argv (argv)
+    src9 = [(x.idx, complex (x.voltage)) for x in m9.sources]
+    m9.sources = []
+    for idx9, v9 in src9:
+        m9.register_source (MM.Excitation (-abs (v9), float (np.degrees (np.angle (v9))) + 180.0), idx9)
+    try:
+        t9 = common.guarded (lambda: m9.as_basic_input (ns, **kw), 'as_basic_input')
+        r9 = basic_reader.read (t9, spec ['version'])
+        mon ['sources.magnitude-phase'] = 1
+        for (idx9, v9), (p9, mag9, ph9) in zip (src9, r9 ['sources']):
+            w9 = mag9 * np.exp (1j * np.radians (ph9))
+            if p9 != idx9 + 1 or abs (w9 - v9) > 2e-5 * abs (v9):
+                bad ('sources.magnitude-phase', 'source-answer', 'source of %r on pulse %d handed over as magnitude %r and phase %r degrees is written as pulse %d, %r, %r' % (v9, idx9 + 1, -abs (v9), float (np.degrees (np.angle (v9))) + 180.0, p9, mag9, ph9))
+    except common.Repo_Crash as e:
+        if 'NotImplementedError' not in e.key:
+            raise
+    except basic_reader.Read_Error as e:
+        bad ('sources.magnitude-phase', 'prompt-order', 'sources as magnitude and phase: the answers do not follow the prompts: %s' % e)
     # ---- one BASIC file per frequency from one object (a scripted sweep): after the frequency of the object has
     # changed, the file is the one a fresh object at that frequency writes
     f0 = m.f
